@@ -23,6 +23,25 @@ class Ctx:
             self._progs[config] = ir.Program(extract.load(config))
         return self._progs[config]
 
+    def witness(self):
+        """compile the witness programs against the current tree (cached per tree hash)"""
+        if not hasattr(self, "_wit"):
+            import witness
+            self._wit = witness.build()
+        return self._wit
+
+    def prog_with_witness(self, config="mip04"):
+        """the program facts plus the witness crate's positive-control functions"""
+        key = config + "+witness"
+        if key not in self._progs:
+            import witness
+            facts = dict(extract.load(config))
+            wf = witness.load_facts(self.witness())
+            if wf is not None:
+                facts["mdk_verif_witness"] = wf
+            self._progs[key] = ir.Program(facts)
+        return self._progs[key]
+
     def configs(self):
         return ["mip04"] if self.tier == "quick" else ["mip04", "default", "all"]
 
